@@ -110,11 +110,29 @@ func c02Run(env c02Env, script []c02Tok, strictOrder bool, seed uint64, idx int,
 			released bool
 			handed   bool
 			order    int
+			id       uint16
 		}
-		open := map[uint16]*exch{}
+		open := map[uint16]*exch{} // exchanges whose first PUBREL has not been sent yet
+		var pending []*exch        // released, hand-over still owed (it may wait for older exchanges)
+		var all []*exch
 		nOpen := 0
 		handedCount := map[uint64]int{}
 		r := spec.NewRand(seed)
+		// owed reports a released exchange that is older than every exchange still unreleased and has not been handed on
+		owed := func() *exch {
+			oldestOpen := 1 << 30
+			for _, e := range open {
+				if e.order < oldestOpen {
+					oldestOpen = e.order
+				}
+			}
+			for _, e := range pending {
+				if !e.handed && e.order < oldestOpen {
+					return e
+				}
+			}
+			return nil
+		}
 		for step, tk := range script {
 			var wantAcks []string
 			var wantHand []uint64 // must be handed over in this step (strict)
@@ -125,21 +143,35 @@ func c02Run(env c02Env, script []c02Tok, strictOrder bool, seed uint64, idx int,
 				wantAcks = []string{fmt.Sprintf("PUBACK(%d)", 10+tk.id)}
 				wantHand = []uint64{uid}
 			case '2':
+				// a PUBLISH whose identifier belongs to an exchange without PUBREL yet is a repetition; after the
+				// PUBREL the identifier is free again and a PUBLISH with it opens a new exchange (MQTT 4.3.3),
+				// whether or not the released message has been handed on yet
 				e := open[tk.id]
 				dup := e != nil
 				uid := uids.next() // a DUP deliberately carries different bytes: the first content must win
 				if e == nil {
 					nOpen++
-					e = &exch{uid: uid, order: nOpen}
+					e = &exch{uid: uid, order: nOpen, id: tk.id}
 					open[tk.id] = e
+					all = append(all, e)
+					// the first copy the receiver sees may itself be flagged DUP (the original was lost on the way)
+					if r.Intn(4) == 0 {
+						dup = true
+						out.Count("c02.first_copy_flagged_dup", 1)
+					}
 				}
 				env.send(&rc.Packet{Type: rc.PUBLISH, QoS: 2, ID: tk.id, Dup: dup, Topic: []byte("c02/q2"), Payload: spec.MakePayload(uid, uint32(step), 40+r.Intn(3000))})
 				wantAcks = []string{fmt.Sprintf("PUBREC(%d)", tk.id)}
 			case 'R':
 				env.send(&rc.Packet{Type: rc.PUBREL, ID: tk.id})
 				wantAcks = []string{fmt.Sprintf("PUBCOMP(%d)", tk.id)}
-				if e := open[tk.id]; e != nil && !e.released {
+				if e := open[tk.id]; e != nil {
 					e.released = true
+					delete(open, tk.id)
+					pending = append(pending, e)
+					if len(pending) > 1 || len(open) > 0 {
+						out.Count("c02.released_with_others_open", 1)
+					}
 					if strictOrder {
 						wantHand = []uint64{e.uid}
 					}
@@ -191,21 +223,20 @@ func c02Run(env c02Env, script []c02Tok, strictOrder bool, seed uint64, idx int,
 			// QoS 2 bookkeeping
 			for _, d := range got {
 				var owner *exch
-				var oid uint16
-				for id, e := range open {
+				for _, e := range all {
 					if e.uid == d.uid {
-						owner, oid = e, id
+						owner = e
 					}
 				}
 				switch {
 				case owner == nil:
-					fail("c02:handover-content", fmt.Sprintf("step %d %v: handed on uid %d which is not the first PUBLISH of any open exchange (a duplicate's content, or a closed exchange)", step, tk, d.uid))
+					fail("c02:handover-content", fmt.Sprintf("step %d %v: handed on uid %d which is not the first PUBLISH of any exchange (a duplicate's content)", step, tk, d.uid))
 					return
 				case !owner.released:
-					fail("c02:handover-before-pubrel", fmt.Sprintf("step %d %v: the QoS 2 message of id %d was handed on before its PUBREL", step, tk, oid))
+					fail("c02:handover-before-pubrel", fmt.Sprintf("step %d %v: the QoS 2 message of id %d was handed on before its PUBREL", step, tk, owner.id))
 					return
 				case owner.handed:
-					fail("c02:handover-twice", fmt.Sprintf("step %d %v: the QoS 2 message of id %d was handed on a second time", step, tk, oid))
+					fail("c02:handover-twice", fmt.Sprintf("step %d %v: the QoS 2 message of id %d was handed on a second time", step, tk, owner.id))
 					return
 				}
 				owner.handed = true
@@ -222,12 +253,20 @@ func c02Run(env c02Env, script []c02Tok, strictOrder bool, seed uint64, idx int,
 					}
 				}
 			}
-			// close exchanges that are done
-			for id, e := range open {
-				if e.released && e.handed {
-					delete(open, id)
+			// a released exchange may wait for older ones that are not released yet, for nothing else
+			if e := owed(); e != nil {
+				fail("c02:exactly-once", fmt.Sprintf("step %d %v: the exchange with id %d (opened as number %d) has had its PUBREL, so have all exchanges opened before it, and its message has not been handed on", step, tk, e.id, e.order))
+				return
+			}
+			// forget exchanges that are done
+			k := 0
+			for _, e := range pending {
+				if !e.handed {
+					pending[k] = e
+					k++
 				}
 			}
+			pending = pending[:k]
 		}
 		// end of script: release everything still open, oldest first; then every exchange was handed on exactly once
 		for len(open) > 0 {
@@ -244,13 +283,26 @@ func c02Run(env c02Env, script []c02Tok, strictOrder bool, seed uint64, idx int,
 			env.acks()
 			for _, d := range env.handed() {
 				handedCount[d.uid]++
+				for _, x := range all {
+					if x.uid == d.uid {
+						x.handed = true
+					}
+				}
 			}
-			if handedCount[e.uid] != 1 {
+			e.released = true
+			delete(open, oldest)
+			pending = append(pending, e)
+			if o := owed(); o != nil {
 				// with out-of-order releases the hand-over may wait for older exchanges; after releasing the oldest it must be there
-				fail("c02:exactly-once", fmt.Sprintf("exchange id %d: handed on %d times after its PUBREL and those of all older exchanges", oldest, handedCount[e.uid]))
+				fail("c02:exactly-once", fmt.Sprintf("exchange id %d: handed on %d times after its PUBREL and those of all older exchanges", o.id, handedCount[o.uid]))
 				return
 			}
-			delete(open, oldest)
+		}
+		for _, e := range all {
+			if n := handedCount[e.uid]; n != 1 {
+				fail("c02:exactly-once", fmt.Sprintf("exchange number %d (id %d): its message was handed on %d times by the end of the script, when every exchange has had its PUBREL", e.order, e.id, n))
+				return
+			}
 		}
 		for u, n := range handedCount {
 			if n != 1 {
